@@ -139,7 +139,7 @@ CHECKS['C03'] = {
     'assumptions': ['text lines exclude NUL, CR and LF bytes (the text gateway cannot carry them inside a line)'],
     'targets': [
         {'name': 'c03_gateways', 'src': ['harness/C03_gateways.cpp'], 'ccodecs': True, 'quick_n': 600000, 'thorough_n': 4800000, 'maxlen': 1500, 'min_nontrivial': 30000, 'budget': 60,
-         'class_floors': {'binary_zlib': 10000, 'templating': 5000, 'text': 3000, 'slip': 1500, 'raw': 1500, 'raw_min_chunk': 1500, 'websocket': 5000, 'mini_gateway': 1500, 'micro_gateway': 1500, 'binary_encoding_switches': 3000, 'binary_zlib_independent_streams': 1500, 'binary_300KiB': 1500, 'message_sized_to_the_scratch_buffer_boundary': 5000, 'case_micro_sender_prepared_a_message_behind_pending_output': 800}},
+         'class_floors': {'binary_zlib': 10000, 'templating': 5000, 'text': 3000, 'slip': 1500, 'raw': 1500, 'raw_min_chunk': 1500, 'websocket': 5000, 'mini_gateway': 1500, 'micro_gateway': 1500, 'binary_encoding_switches': 3000, 'binary_zlib_independent_streams': 1500, 'binary_300KiB': 1500, 'message_sized_to_the_scratch_buffer_boundary': 5000, 'case_micro_sender_prepared_a_message_behind_pending_output': 800, 'templating_with_encoding_switches': 5000}},
     ],
 }
 
@@ -419,7 +419,7 @@ CHECKS['C06'] = {
 _LATER = {
     'C01': 'Also: copies of the Message under construction (copy constructor, assignment over a Message in use, pooled copy) are kept and must still flatten to the bytes they had when taken, whatever is done to the original afterwards; copies are modified (items removed / added / replaced, fields removed, emptied, written through GetPointerToNormalizedFieldData) and the original must keep its bytes; fields are swapped with another Message and back (SwapName), contents swapped out and moved back (SwapContents, move assignment); the checksum of a Message equals that of its parsed copy.',
     'C02': 'Also (gateways target): a packet tunnel with a small maximum incoming Message size fed, by one sender, Messages below and above the limit (none above may be delivered, whatever preceded it); binary frames larger than the 2048-byte scratch buffer whose last field claims 1-8 bytes more than the frame holds (exactly-sized heap receive buffer: an over-read is an ASan report); tunnel receivers whose MTU is fitted to the last datagram.',
-    'C03': 'Also: the micro C sender keeps preparing Messages while earlier ones are still partly in its (small) output buffer, so that the buffer is compacted with output pending.',
+    'C03': 'Also: the templating gateway in each of the 10 encodings, with the encoding changed in mid-stream in half of the cases (finding F39); the micro C sender keeps preparing Messages while earlier ones are still partly in its (small) output buffer, so that the buffer is compacted with output pending.',
     'C04': 'Also: SETDATA with the supercede flag (earlier queued updates of the same node are dropped in favour of the new one).',
     'C05': 'Also (traversal mode): a third of the multi-key GETDATAs carry one filter per key (v == k, or an empty placeholder); node payloads differ in v; PathMatcher::MatchesPath is called with the payload and compared, node by node, with an independent key-by-key evaluation (clause-by-clause match, then that key\'s own filter) as well as with the traversal.',
     'C06': 'Also (isolation): fully-qualified paths that begin with the characters of the adversary\'s own root path and then go on (a neighbour\'s address that a careless prefix test takes for one\'s own); after every adversary command no node may exist outside the subtrees of the connected sessions; a server that grants some privileges but not the one a command needs.',
